@@ -222,7 +222,8 @@ def make_persist():
             from harness import outcome as oc
             has_fix = bool(fresh_bool(c, "has_fixable"))
             changed = bool(fresh_bool(c, "fix_changes_text"))
-            suffix = choose(c, "suffix", ["", ".fixed"])
+            suffix = choose(c, "suffix", ["", ".fixed", "_fix"])
+            stem = choose(c, "file_stem", ["q", "q.fixed", "hot_fix", "_fix"])
             calls = []
 
             class F(LintedFile):
@@ -232,13 +233,15 @@ def make_persist():
             LintedFile._safe_create_replace_file = staticmethod(lambda i, o, buf, enc: calls.append((i, o, buf, enc)))
             try:
                 vs = [oc.make_violation("LINT_FIX", False, False, 1)] if has_fix else [oc.make_violation("LINT_NOFIX", False, False, 1)]
-                f = F("dir/q.sql", vs, None, None, None, None, "utf-8-sig")
+                f = F(f"dir/{stem}.sql", vs, None, None, None, None, "utf-8-sig")
                 ok = LintedFile.persist_tree(f, suffix=suffix)  # REAL
             finally:
                 LintedFile._safe_create_replace_file = real
             if calls:
                 c.witness("written")
-            exp_calls = [("dir/q.sql", "dir/q" + suffix + ".sql", "NEW", "utf-8-sig")] if (has_fix and changed) else []
+            if suffix and stem.endswith(suffix):
+                c.witness("stem_already_ends_with_suffix")
+            exp_calls = [(f"dir/{stem}.sql", f"dir/{stem}{suffix}.sql", "NEW", "utf-8-sig")] if (has_fix and changed) else []
             return calls == exp_calls
         return harness
     return factory
@@ -253,6 +256,7 @@ def units(tier, seed):
                     "the fault raises OSError / KeyboardInterrupt, writes half the buffer first, or os._exit()s in a forked child"],
              witnesses_required=["success"] + ["fault_" + k for k in KINDS], sharded=True, timeout_s=900),
         Unit(name="c26.persist_tree_gate", functions=["sqlfluff.core.linter.linted_file.LintedFile.persist_tree"],
-             bounds={"fixable violations": "present/absent", "fix changes text": "both", "suffix": "none/.fixed"},
-             make=make_persist(), replay="concrete", witnesses_required=["written"], sharded=False, timeout_s=120),
+             bounds={"fixable violations": "present/absent", "fix changes text": "both", "suffix": "none/.fixed/_fix",
+                     "file stem": "q / q.fixed / hot_fix / _fix (incl. stems that already end with the suffix)"},
+             make=make_persist(), replay="concrete", witnesses_required=["written", "stem_already_ends_with_suffix"], sharded=False, timeout_s=120),
     ]
